@@ -86,15 +86,21 @@ impl UpdateGenerator for MarkdownUpdateGenerator {
                         format!(" {{{}}}", config_lines.join_newline().trim_start())
                     };
                     // a block without shell expression is not a testcase, has
-                    // no outcome and stays as it is
-                    let generated = if code_lines.iter().any(|(_, line)| line.starts_with("$ ")) {
-                        let generated = outcomes
-                            .get(testcase_index)
-                            .with_context(|| format!("no outcome for testcase number {}", testcase_index + 1))?
-                            .generate_testcase()
-                            .with_context(|| format!("testcase number {}", testcase_index + 1))?;
+                    // no outcome and stays as it is; so does a valid testcase
+                    let has_testcase = code_lines.iter().any(|(_, line)| line.starts_with("$ "));
+                    let outcome = if has_testcase {
+                        let outcome = outcomes.get(testcase_index).with_context(|| {
+                            format!("no outcome for testcase number {}", testcase_index + 1)
+                        })?;
                         testcase_index += 1;
-                        generated
+                        Some(outcome)
+                    } else {
+                        None
+                    };
+                    let generated = if let Some(outcome) = outcome.filter(|o| o.result.is_err()) {
+                        outcome
+                            .generate_testcase()
+                            .with_context(|| format!("testcase number {}", testcase_index))?
                     } else {
                         code_lines
                             .iter()
